@@ -593,6 +593,12 @@ def opUnmatched (req : Json) : Json :=
   let s : MS := ⟨gsOf req, jnat req "cur", jbool req "excl", false, []⟩
   Json.mkObj [("mk", mkJson (Delim.evalUnmatched s (jstr req "opener").toList (jstr req "closer").toList (jbool req "fwd")))]
 
+/-- `{"op":"textobj_delim","gs":[..],"cur":n,"excl":b,"ws":[b..],"opener":g,"closer":g,"around":b}`: `i(` `a(` … -/
+def opTextObjDelim (req : Json) : Json :=
+  let ws : List Bool := (jarr req "ws").toList.map (fun x => x.getBool?.toOption.getD false)
+  let s : MS := ⟨gsOf req, jnat req "cur", jbool req "excl", false, ws⟩
+  Json.mkObj [("mk", mkJson (Delim.evalTextObjDelim s (jstr req "opener").toList (jstr req "closer").toList (jbool req "around")))]
+
 /-- `{"op":"sentence","k":[0..4],"cur":n,"count":n,"fwd":b,"has_verb":b}` -/
 def opSentence (req : Json) : Json :=
   let k : List Nat := (jarr req "k").toList.map (fun x => x.getNat?.toOption.getD 0)
@@ -627,6 +633,7 @@ def dispatch (req : Json) : Json :=
   | "sentence" => opSentence req
   | "delim_match" => opDelimMatch req
   | "unmatched" => opUnmatched req
+  | "textobj_delim" => opTextObjDelim req
   | op => Json.mkObj [("err", Json.str s!"unknown op {op}")]
 
 partial def loop (h : IO.FS.Stream) (out : IO.FS.Stream) : IO Unit := do
